@@ -199,3 +199,20 @@ def ends_in_raise(body: list[ast.stmt]) -> bool:
     if isinstance(last, ast.If):
         return ends_in_raise(last.body) and ends_in_raise(last.orelse)
     return False
+
+
+def own_exprs(node: ast.AST) -> list[ast.AST]:
+    """What a node passed to ``visit`` evaluates *itself* (not its nested blocks)."""
+    if isinstance(node, (ast.For, ast.AsyncFor)):
+        return [node.iter]
+    if isinstance(node, (ast.With, ast.AsyncWith)):
+        return [it.context_expr for it in node.items]
+    if isinstance(node, ast.ExceptHandler):
+        return []
+    return [node]
+
+
+def node_calls(node: ast.AST):
+    """Calls evaluated by a visited node itself, in source order."""
+    for e in own_exprs(node):
+        yield from calls_in(e)
